@@ -169,6 +169,51 @@ impl Monitor for C08 {
                             }
                         }
                     }
+                    // u64 boundary on a fork: the liquidity whose exact cost just exceeds what a u64 can pay must be refused,
+                    // the largest liquidity whose cost still fits is charged exactly (or refused, e.g. for lack of funds)
+                    if inc && ev.salt % 5 == 2 {
+                        for side_b in [false, true] {
+                            // per-unit cost as a fraction n/d of one liquidity unit
+                            let (pl, pu) = (model::sqrt_price_of_tick(lo), model::sqrt_price_of_tick(hi));
+                            let p = x.pre_pool.sqrt_price;
+                            let t = x.pre_pool.tick_current_index;
+                            let (n, d): (BigUint, BigUint) = if side_b {
+                                if t < lo { continue }
+                                let top = if t < hi { p } else { pu };
+                                (model::bu(top - pl), model::two64())
+                            } else {
+                                if t >= hi { continue }
+                                let bot = if t < lo { pl } else { p };
+                                (model::two64() * model::bu(pu - bot), model::bu(pu) * model::bu(bot))
+                            };
+                            if n.is_zero() { continue }
+                            // smallest L with ceil(L*n/d) > u64::MAX, i.e. L*n > (2^64 - 1) * d
+                            let lim = model::bu(u64::MAX as u128) * &d;
+                            let l_over = &lim / &n + BigUint::from(1u8);
+                            for (which, lbig) in [("over", l_over.clone()), ("fit", &l_over - BigUint::from(1u8))] {
+                                let Some(l) = model::to_u128(&lbig) else { continue };
+                                if l == 0 { continue }
+                                let mut d2 = v.ix.data.clone();
+                                d2[8..24].copy_from_slice(&l.to_le_bytes());
+                                d2[24..32].copy_from_slice(&u64::MAX.to_le_bytes());
+                                d2[32..40].copy_from_slice(&u64::MAX.to_le_bytes());
+                                let mut ix2 = v.ix.clone();
+                                ix2.data = d2;
+                                let mut fork = v.pre.clone();
+                                let r = rt::exec_tx_simple(&mut fork, &Tx { ixs: vec![ix2] });
+                                cov.eval(format!("u64_boundary|{}|side_b={}|{}|ok={}", name, side_b, which, r.ok));
+                                cov.probe("u64_boundary_forks");
+                                let (xa, xb) = model::liquidity_amounts(l, t, p, lo, hi, true);
+                                if r.ok {
+                                    let va = delta(v.pre, &fork, &x.pre_pool.vault_a);
+                                    let vb = delta(v.pre, &fork, &x.pre_pool.vault_b);
+                                    if BigUint::from(va.max(0) as u128) != xa || BigUint::from(vb.max(0) as u128) != xb {
+                                        out.push(viol("token_amounts", ev.idx, format!("{} L={} on {}..{} at tick {} price {} succeeded and moved {} / {} into the vaults, but its exact rounded-up cost is {} / {} (u64 boundary probe)", name, l, lo, hi, t, p, va, vb, xa, xb)));
+                                    }
+                                }
+                            }
+                        }
+                    }
                     // add-then-remove on a fork at the unchanged price
                     if inc && ev.salt % 4 == 1 {
                         let mut fork = v.post.clone();
@@ -248,6 +293,42 @@ impl Monitor for C08 {
                     }
                     if x.post_pos.liquidity != new_liq || x.post_pos.lower != new_lo || x.post_pos.upper != new_hi {
                         out.push(viol("position_liquidity_delta", ev.idx, "reposition did not leave the requested range / liquidity".into()));
+                    }
+                    // the caller's bounds: minimum for what the existing range returns, maximum for what the new range costs
+                    let (min_a, min_b, max_a, max_b) = (r.u64(), r.u64(), r.u64(), r.u64());
+                    if new_a > BigUint::from(max_a) || new_b > BigUint::from(max_b) {
+                        out.push(viol("token_max_exceeded", ev.idx, format!("reposition: the new range costs {} / {} which exceeds the caller's maximum {} / {}", new_a, new_b, max_a, max_b)));
+                    }
+                    if old_a < BigUint::from(min_a) || old_b < BigUint::from(min_b) {
+                        out.push(viol("token_min_subceeded", ev.idx, format!("reposition: the existing range returns {} / {} which is below the caller's minimum {} / {}", old_a, old_b, min_a, min_b)));
+                    }
+                    if out.is_empty() && ev.salt % 2 == 0 {
+                        if let (Some(oa), Some(ob), Some(na), Some(nb)) = (model::to_u64(&old_a), model::to_u64(&old_b), model::to_u64(&new_a), model::to_u64(&new_b)) {
+                            cov.probe("reposition_bound_edge_forks");
+                            let mk = |mia: u64, mib: u64, maa: u64, mab: u64| -> Vec<u8> {
+                                let mut d = v.ix.data.clone();
+                                d[33..41].copy_from_slice(&mia.to_le_bytes());
+                                d[41..49].copy_from_slice(&mib.to_le_bytes());
+                                d[49..57].copy_from_slice(&maa.to_le_bytes());
+                                d[57..65].copy_from_slice(&mab.to_le_bytes());
+                                d
+                            };
+                            fork_expect(&v, mk(oa, ob, na, nb), true, 0, "reposition with min = exact proceeds, max = exact cost", ev.idx, &mut out);
+                            if na > 0 {
+                                fork_expect(&v, mk(oa, ob, na - 1, nb), false, 6017, "reposition new_range_token_max_a = cost - 1", ev.idx, &mut out);
+                            }
+                            if nb > 0 {
+                                fork_expect(&v, mk(oa, ob, na, nb - 1), false, 6017, "reposition new_range_token_max_b = cost - 1", ev.idx, &mut out);
+                            }
+                            if oa < u64::MAX {
+                                fork_expect(&v, mk(oa + 1, ob, na, nb), false, 6018, "reposition existing_range_token_min_a = proceeds + 1", ev.idx, &mut out);
+                            }
+                            if ob < u64::MAX {
+                                fork_expect(&v, mk(oa, ob + 1, na, nb), false, 6018, "reposition existing_range_token_min_b = proceeds + 1", ev.idx, &mut out);
+                            }
+                            let net_dir = |n: i128| if n > 0 { "owner_pays" } else if n < 0 { "owner_receives" } else { "zero" };
+                            cov.eval(format!("reposition_edges|a={}|b={}", net_dir(net_a), net_dir(net_b)));
+                        }
                     }
                 }
                 _ => {}
